@@ -803,8 +803,9 @@ def explore(tier, seed, report, pool):
         per_graph[g.name if key[0] != "struct" and key[0] != "data" else "%s#%d" % (g.name, key[2])] = {
             "events": len(g.events), "depth": depth_for(key, tier), "states": st["states"], "transitions": st["transitions"],
             "per_depth": st["per_depth"], "unexpanded_frontier": st["frontier_left"]}
-        if len(report.samples) < 6:
-            report.samples.append({"graph": list(key), "history": [g.events[0][0], g.events[min(3, len(g.events) - 1)][0]], "event": g.events[-1][0]})
+        for smp in st["samples"][-2:]:
+            if len(report.samples) < 12:
+                report.samples.append(dict(graph=list(key), **smp))
         for hist, ev, finding, msg in st["violations"]:
             f = "%s:%s" % (ID, canonical_finding(finding))
             case = {"graph": list(key), "history": hist, "event": ev}
